@@ -261,6 +261,64 @@ class PathEngine:
         e.frames = self._frames
         return e
 
+    def _module_const(self, m: Any, name: str, val: ast.expr) -> Any:
+        """value of a module-level name bound exactly once to a literal constant / enum member / flat
+        collection of those (a constant hoisted out of a function): the term the inline literal would give"""
+        ck = (m.name, name)
+        cache = self.__dict__.setdefault("_mconst", {})
+        if ck in cache:
+            return cache[ck]
+        cache[ck] = None
+        n_bind = 0
+        for n in ast.walk(m.tree):
+            if isinstance(n, ast.Name) and n.id == name and isinstance(n.ctx, (ast.Store, ast.Del)):
+                n_bind += 1
+            elif isinstance(n, ast.Global) and name in n.names:
+                n_bind += 2
+        if n_bind != 1:
+            return None
+        import types
+
+        from .model import FuncInfo
+
+        stub = types.SimpleNamespace(func=FuncInfo(f"{m.name}:<module>", m, ast.parse("def _m(): pass").body[0]))
+
+        def scalar(x: ast.expr) -> Any:
+            if isinstance(x, ast.Constant):
+                return ("const", x.value)
+            if isinstance(x, ast.UnaryOp) and isinstance(x.op, ast.USub) and isinstance(x.operand, ast.Constant) and isinstance(x.operand.value, (int, float)):
+                return ("const", -x.operand.value)
+            if isinstance(x, ast.Attribute):
+                ec = self.prog.enum_const(x, stub.func)
+                if ec is not None:
+                    return ("enum", ec[0], ec[1])
+            if isinstance(x, ast.Name):
+                k2, p2 = self.prog.lookup_name(x.id, None, m)
+                if k2 == "class" and x.id in self.kinds.parent:
+                    return ("global", p2.qual)
+                if k2 == "ext" and str(p2).startswith("builtins.") and x.id in self.kinds.parent:
+                    return ("global", p2)
+            return None
+
+        def coll(x: ast.expr) -> Any:
+            if isinstance(x, (ast.Tuple, ast.List, ast.Set)):
+                el = [scalar(y) for y in x.elts]
+                if any(y is None for y in el):
+                    return None
+                return ("set" if isinstance(x, ast.Set) else "tuple", tuple(el))
+            if isinstance(x, ast.Call) and isinstance(x.func, ast.Name) and x.func.id in ("frozenset", "set", "tuple") and len(x.args) == 1 and not x.keywords:
+                inner = coll(x.args[0])
+                if inner is None:
+                    return None
+                return ("tuple" if x.func.id == "tuple" else "set", inner[1])
+            return None
+
+        out = scalar(val)
+        if out is None:
+            out = coll(val)
+        cache[ck] = out
+        return out
+
     # ------------------------------------------------------------------ symbolic evaluation
     def sym(self, e: ast.expr | None, env: dict, store: dict, cfg: CFG) -> Any:
         fi = cfg.func
@@ -286,7 +344,8 @@ class PathEngine:
             if k == "ext":
                 return ("global", p)
             if k == "assign":
-                return ("global", f"{p[0].name}:{e.id}")
+                cv = self._module_const(p[0], e.id, p[1])
+                return cv if cv is not None else ("global", f"{p[0].name}:{e.id}")
             return ("free", e.id)
         if isinstance(e, ast.Attribute):
             ec = self.prog.enum_const(e, fi)
@@ -358,6 +417,10 @@ class PathEngine:
             b = self.sym(e.right, env, store, cfg)
             return ("op", BIN[type(e.op)], a, b)
         if isinstance(e, ast.IfExp):
+            tk = _taken(e.test, env)
+            if tk is not None:
+                # the path went through this conditional expression's test: the branch is known
+                return self.sym(e.body if tk else e.orelse, env, store, cfg)
             c = self.sym(e.test, env, store, cfg)
             try:
                 a = self.sym(e.body, env, store, cfg)
@@ -386,6 +449,12 @@ class PathEngine:
         if isinstance(e, ast.Starred):
             return ("star", self.sym(e.value, env, store, cfg))
         if isinstance(e, ast.NamedExpr):
+            if isinstance(e.target, ast.Name) and e.target.id in env:
+                # already bound by the walrus store node on this path
+                try:
+                    return self.sym(e.value, env, store, cfg)
+                except NotEvaluated:
+                    return env[e.target.id]
             return self.sym(e.value, env, store, cfg)
         if isinstance(e, (ast.ListComp, ast.SetComp, ast.GeneratorExp, ast.DictComp)):
             return ("comp", id(e))
@@ -507,7 +576,8 @@ class PathEngine:
                 items2 = items
                 for t in node.info["targets"]:
                     env2, store2, items2 = self._assign(cfg, node, t, val, env2, store2, items2, node.info["aug"])
-                drop_temps(env2)
+                if not isinstance(node.ast, ast.NamedExpr):
+                    drop_temps(env2)  # a walrus sits inside a larger expression whose temporaries stay live
                 go(env=env2, store=store2, items=items2)
             elif k == "test":
                 c = self.sym(node.info["cond"], env, store, cfg)
@@ -523,6 +593,8 @@ class PathEngine:
                         env2 = dict(env)
                         if not node.info.get("value_ctx"):
                             drop_temps(env2)
+                        else:
+                            env2[("$t", id(node.info["cond"]))] = br
                         go(lab, env=env2)
                         continue
                     if atom in lits:
@@ -535,6 +607,8 @@ class PathEngine:
                     env2 = dict(env)
                     if not node.info.get("value_ctx"):
                         drop_temps(env2)
+                    else:
+                        env2[("$t", id(node.info["cond"]))] = br
                     go(lab, env=env2, items=items + [("cond", atom, want, node, cfg, self._frames)], lits=lits2)
             elif k == "iter":
                 c = visits.get(nid, 0)
@@ -712,7 +786,14 @@ def _inline_impl(self, cfg, node, tg, call, recv, args, kwargs, env, store, item
     callee = tg.func
     pos = callee.positional_params()
     names = callee.param_names()
+    # the call itself is not an effect: what the callee does is spliced in below
+    import dataclasses
+
+    items2 = items2[:-1] + [("ev", dataclasses.replace(items2[-1][1], kind="inlined"))]
     cenv: dict = {}
+    if callee.parent is not None and callee.parent is cfg.func:
+        # a closure defined in the calling function: its free variables are the caller's locals
+        cenv = {k: v for k, v in env.items() if isinstance(k, str) and not k.startswith("$")}
     i0 = 0
     if callee.is_method and not callee.is_staticmethod and recv is not None:
         cenv[pos[0]] = recv
@@ -783,8 +864,25 @@ def default_inline() -> Callable[[FuncInfo], bool]:
 
 
 def drop_temps(env: dict) -> None:
-    for p in [p for p in env if isinstance(p, tuple) and p[0] == "$r"]:
+    for p in [p for p in env if isinstance(p, tuple) and p[0] in ("$r", "$t")]:
         del env[p]
+
+
+def _taken(test: ast.expr, env: dict) -> bool | None:
+    """outcome of a value-context test on the current path (None: the path did not record it)"""
+    if isinstance(test, ast.BoolOp):
+        is_and = isinstance(test.op, ast.And)
+        for v in test.values:
+            r = _taken(v, env)
+            if r is None:
+                return None
+            if r != is_and:
+                return r
+        return is_and
+    if isinstance(test, ast.UnaryOp) and isinstance(test.op, ast.Not):
+        r = _taken(test.operand, env)
+        return None if r is None else (not r)
+    return env.get(("$t", id(test)))
 
 
 def contains(t: Any, sub: Any) -> bool:
